@@ -12,7 +12,7 @@
     check); /repo commit 432fa0a repaired the code, the model follows the code,
     and the theorem below no longer has that guard. *)
 From InvokeVerif Require Import Model.CollModel Spec.C17Spec Corr.C17Corr Proofs.C17_path
-     Proofs.C10_build Proofs.C17_built Proofs.C17_spelling.
+     Proofs.C10_build Proofs.C17_built Proofs.C17_spelling Model.CollHist Proofs.C17_hist.
 
 (** Flagship.  For EVERY built tree [c] and EVERY name, what the model of
     [Collection.task_with_config] returns is accepted by the executable
@@ -101,3 +101,59 @@ Example C17_example_hypotheses_inhabited :
   configuration ex_root "inner" =
   Ok [("k", Node [("x", Leaf (VInt 9)); ("z", Node [("p", Leaf (VBool true))]); ("y", Leaf (VStr "o"))])].
 Proof. exact example_guards. Qed.
+
+(** ** Build histories (Model/CollHist.v): ONE module object with an explicit
+    namespace mounted several times into a root ([add_collection(module)] /
+    [from_module(module, config=)]), configure() calls on single mounts, on the
+    namespace object and on the root in between.  [from_module] copies, so: *)
+
+(** "sibling collections contributing nothing", for mounts of one module:
+    over ANY run of steps that neither configures the mount stored under [k]
+    nor mounts something under that name again, what is stored under [k] --
+    its configuration included -- stays what it was, whatever was configured
+    on its sibling mounts, on the module's namespace object or on the root. *)
+Theorem C17_sibling_mount_untouched : forall mn ops st st' k,
+  hops_run mn st ops = Ok st' ->
+  forallb (fun op => negb (touches (c_auto_dash (hs_root st)) k op)) ops = true ->
+  assoc k (c_subs (hs_root st')) = assoc k (c_subs (hs_root st)).
+Proof. exact hops_sibling_untouched. Qed.
+
+(** ... a configure() on one mount rewrites that mount only (the root's own
+    configuration, tasks, aliases and default included in "everything else") *)
+Theorem C17_mount_configure_local : forall root key cfg root',
+  conf_sub root key cfg = Ok root' ->
+  (forall k', k' <> key -> assoc k' (c_subs root') = assoc k' (c_subs root)) /\
+  c_config root' = c_config root /\ c_tasks root' = c_tasks root /\
+  c_aliases root' = c_aliases root /\ c_default root' = c_default root.
+Proof. exact conf_sub_local. Qed.
+
+(** ... and the module's own namespace object is changed by configure() calls
+    on IT only: mounting it and configuring its mounts leave it alone. *)
+Theorem C17_module_namespace_untouched : forall mn ops st st',
+  hops_run mn st ops = Ok st' ->
+  forallb (fun op => match op with HConfNs _ => false | _ => true end) ops = true ->
+  hs_ns st' = hs_ns st.
+Proof. exact hops_ns_untouched. Qed.
+
+(** Flagship over histories: for EVERY history with dot-free non-empty names
+    that runs through, every lookup on the root it leaves behind (and on the
+    module's namespace object) meets the executable specification. *)
+Theorem C17_path_deep_merge_history : forall h st name,
+  hist_plain h = true -> run_hist h = Ok st ->
+  C17Spec.spec_ok (hs_root st) name (model_obs (hs_root st) name) = true /\
+  C17Spec.spec_ok (hs_ns st) name (model_obs (hs_ns st) name) = true.
+Proof. exact hist_meets_spec. Qed.
+
+(** Non-vacuity (the scenario of seed C17-6 in the model): namespace with
+    settings mounted as docs and www, www configured afterwards, then the
+    namespace object: docs keeps the original source, www has its own, the
+    namespace object has nothing of www's. *)
+Example C17_history_mounts_independent :
+  hist_plain ex_hist = true /\
+  exists st, run_hist ex_hist = Ok st /\
+    configuration (hs_root st) "docs.make" =
+      Ok [("sphinx", Node [("source", Leaf (VStr "docs")); ("jobs", Leaf (VInt 2))])] /\
+    configuration (hs_root st) "www" =
+      Ok [("sphinx", Node [("source", Leaf (VStr "sites/www")); ("jobs", Leaf (VInt 2))])] /\
+    c_config (hs_ns st) = [("sphinx", Node [("source", Leaf (VStr "docs")); ("late", Leaf (VBool true))])].
+Proof. exact ex_hist_independent. Qed.
